@@ -44,10 +44,12 @@ PY = "/venv/bin/python"
 OUTCOMES = ["ok-silent", "ok-stderr", "reject", "killed", "java-absent", "corrupt-jar"]
 ENTRIES = ["lib", "cli", "cli-json", "cli-skip", "cli-odk"]
 FORMS = ["valid", "warn", "ext", "invalid"]
-REQUIRED_LABELS = [f"outcome:{o}" for o in OUTCOMES] + [f"entry:{e}" for e in ENTRIES] + [f"form:{f}" for f in FORMS + ["generated"]] + \
+REQUIRED_LABELS = [f"outcome:{o}" for o in OUTCOMES] + [f"entry:{e}" for e in ENTRIES + ["lib-seq"]] + ["seq:same-form-again", "seq:verdict-flips-on-same-form", "line:non-adjacent-repeat", "line:long-stack", "line:many-findings"] + [f"form:{f}" for f in FORMS + ["generated"]] + \
     ["line:path", "line:kept-path", "line:prefix", "line:stack", "line:dup", "line:non-utf8", "validator-started", "verdict:accept", "verdict:reject"]
 
 REAL_JAVA = shutil.which("java")
+LINE_LABEL = {"l": "line:plain", "p": "line:path", "k": "line:kept-path", "m": "line:kept-path", "x": "line:prefix", "s": "line:stack", "d": "line:dup",
+              "b": "line:non-utf8", "S": "line:long-stack", "P": "line:many-findings"}
 
 FIXTURES = {
     "valid": {"nodes": [{"k": "q", "c": {"type": "text", "name": "q1", "label": "Q1"}},
@@ -109,11 +111,23 @@ def render_lines(lines):
         elif kind == "d":      # adjacent duplicate: collapsed
             raw.extend([ln[1], ln[1]])
             exp.append(ln[1])
+        elif kind == "S":      # a long run of Java stack frames (a deep recursion): all dropped, whatever the volume
+            raw.extend("\tat org.javarosa.xpath.expr.XPathFuncExpr.eval(XPathFuncExpr.java:%d)" % (i % 997 + 1) for i in range(ln[1]))
+        elif kind == "P":      # a long run of findings, each with an instance path: all kept and tokenised, whatever the volume
+            for i in range(ln[1]):
+                raw.append("%s %d: problem at /data/grp_1/%s%d here" % (ln[2], i, ln[3], i))
+                exp.append("%s %d: problem at ${%s%d} here" % (ln[2], i, ln[3], i))
     data = b"\n".join(x if isinstance(x, bytes) else x.encode("utf-8") for x in raw) + b"\n"
     if non_utf8:
         exp = [e if any(isinstance(r_, bytes) and r_.decode("latin-1") == e for r_ in raw) else e.encode("utf-8").decode("latin-1") for e in exp]
         return data.decode("latin-1"), exp, data
     return data.decode("utf-8"), exp, data
+
+
+def dedupe_key(ln):
+    """the text of a grammar line at the moment adjacent duplicates are collapsed (paths tokenised, Java content still there)"""
+    raw, exp, _ = render_lines([ln])
+    return raw.strip("\n") if ln[0] in ("x", "s", "b", "S") else "\n".join(exp)
 
 
 def gen_lines(g):
@@ -157,7 +171,22 @@ def gen_lines(g):
         # the expected cleaning is stated per line: keep adjacent lines distinct so that only 'd' lines are duplicates
         out.append(ln)
         last_text = text
-    if out[0][0] == "s":
+    if g.p("_", 0.3) and len(out) >= 2:
+        # the same line again further down (several findings share a follow-up line such as "With element <value>"): only *adjacent*
+        # duplicates are collapsed, so every non-adjacent repeat stays
+        i = g.integer(0, len(out) - 2)
+        if out[i][0] in ("l", "p", "k", "x", "m"):
+            j = g.integer(i + 2, len(out))
+            cp = list(out[i])
+            if all(dedupe_key(nb) != dedupe_key(cp) for nb in out[j - 1:j + 1]):
+                out.insert(j, cp)
+                out.append(["l", "closing line " + str(g.integer(0, 99))])
+                out[-1].append("rep")       # (marker for the label histogram only)
+    if g.p("_", 0.1):
+        # volume: a stack trace hundreds or thousands of frames deep before the lines that matter, or a long list of findings
+        n = g.pick([300, 1200, 3000])
+        out.insert(g.integer(1, len(out)) if len(out) > 1 else 1, ["S", n] if g.p("_", 0.6) else ["P", n, g.pick(["finding", "Error"]), g.pick(["q", "age_", "ü"])])
+    if out[0][0] in ("s", "S"):
         out.insert(0, ["l", "First line"])
     if g.p("_", 0.15):
         # a console code page that is not UTF-8 (e.g. cp850 u-umlaut 0x81): the stream is read as latin-1
@@ -191,6 +220,15 @@ def enumerate_cases(tier):
                     for pretty in ((False, True) if tier == "thorough" else (False,)):
                         yield {"outcome": outcome, "entry": entry, "form": form, "pre": pre, "pretty": pretty, "stderr": FIXED_STDERR,
                                "exit": 1, "container": "md"}
+    # histories in one process: every ordered pair (and a few triples) of validator outcomes, on the same form and on two forms
+    seq_outcomes = ["ok-silent", "ok-stderr", "reject", "killed"]
+    for a in seq_outcomes:
+        for b in seq_outcomes:
+            for forms in (("valid", "valid"), ("warn", "ext"), ("ext", "ext")):
+                yield {"entry": "lib-seq", "steps": [{"form": forms[0], "outcome": a, "stderr": FIXED_STDERR, "exit": 1, "pretty": False},
+                                                     {"form": forms[1], "outcome": b, "stderr": FIXED_STDERR[3:9], "exit": 2, "pretty": False}]}
+    for trip in (("ok-stderr", "ok-silent", "ok-stderr"), ("ok-silent", "reject", "ok-silent"), ("reject", "reject", "ok-stderr"), ("ok-stderr", "ok-stderr", "reject")):
+        yield {"entry": "lib-seq", "steps": [{"form": "warn", "outcome": o, "stderr": FIXED_STDERR[i:i + 5], "exit": 1, "pretty": i == 1} for i, o in enumerate(trip)]}
     if tier == "thorough":
         for entry in ("lib", "cli-json"):
             yield {"outcome": "timeout", "entry": entry, "form": "valid", "pre": False, "pretty": False, "stderr": FIXED_STDERR, "exit": 0,
@@ -206,11 +244,21 @@ def _cases(draw):
     form = "generated" if use_generated else g.pick(FORMS)
     case = {"outcome": g.pick(OUTCOMES[:4] + ["reject", "ok-stderr"]), "entry": g.pick(ENTRIES), "form": form, "pre": g.p("_", 0.4),
             "pretty": g.p("_", 0.4), "stderr": gen_lines(g), "exit": g.pick([1, 1, 2, 3, 134, 255]), "container": g.pick(["md", "md", "xlsx"])}
+    if g.p("_", 0.15):
+        # a history of validated conversions in one process
+        pool = [form] + [g.pick(FORMS[:3]) for _ in range(2)]
+        steps = []
+        for _ in range(g.integer(2, 4)):
+            steps.append({"form": g.pick([form, form] + pool), "outcome": g.pick(["ok-silent", "ok-stderr", "ok-stderr", "reject", "reject", "killed"]),
+                          "stderr": gen_lines(g), "exit": g.pick([1, 1, 2, 134]), "pretty": g.p("_", 0.3), "container": case["container"]})
+        case = {"entry": "lib-seq", "steps": steps, "form": form, "container": case["container"]}
     if use_generated:
         f = gen.build_form(draw, prof, g=g)
         f.pop("_langs", None)
         f["args"] = {}
         case["gen_form"] = f
+        if case["entry"] == "lib-seq":
+            return case
         if g.p("_", 0.35):
             # a process whose locale encoding is not UTF-8 (the C locale here; cp1252 on Windows is the same class): the XForm file is
             # UTF-8 whatever the locale says.  The standard streams stay UTF-8 so that only files are in play.
@@ -328,6 +376,136 @@ except Exception as e:
 """
 
 
+LIB_SEQ_SNIPPET = r"""
+import json, os, sys
+from pyxform.xls2xform import convert
+from pyxform.errors import PyXFormError
+from pyxform.validators.odk_validate import ODKValidateError
+plan = json.load(open(sys.argv[1]))
+scn = os.environ["VF_SCENARIO_DIR"]
+results = []
+for step in plan:
+    for name in ("stderr", "exit", "kill", "invoked"):
+        if os.path.exists(os.path.join(scn, name)):
+            os.remove(os.path.join(scn, name))
+    if step.get("stderr_hex") is not None:
+        open(os.path.join(scn, "stderr"), "wb").write(bytes.fromhex(step["stderr_hex"]))
+    if step.get("exit") is not None:
+        open(os.path.join(scn, "exit"), "w").write(str(step["exit"]))
+    if step.get("kill"):
+        open(os.path.join(scn, "kill"), "w").close()
+    try:
+        r = convert(step["src"], validate=True, pretty_print=step["pretty"])
+        res = {"status": "ok", "xform": r.xform, "warnings": r.warnings, "itemsets": r.itemsets}
+    except ODKValidateError as e:
+        res = {"status": "odk-error", "message": str(e)}
+    except PyXFormError as e:
+        res = {"status": "pyxform-error", "message": str(e)}
+    except OSError as e:
+        res = {"status": "os-error", "message": str(e)}
+    except Exception as e:
+        res = {"status": "crash", "message": type(e).__name__ + ": " + str(e)}
+    res["started"] = os.path.exists(os.path.join(scn, "invoked"))
+    res["residue"] = sorted(os.listdir(os.environ["TMPDIR"]))
+    results.append(res)
+print(json.dumps({"results": results}))
+"""
+
+
+def _evaluate_seq(case, box, out):
+    """several validated conversions in ONE process, the validator's behaviour changing between them: every call is judged on its own
+    (the verdict of an earlier call, or of an earlier call on the very same form, says nothing about this one)"""
+    out.label("entry:lib-seq")
+    plan, expect_ = [], []
+    srcs = {}
+    for i, st_ in enumerate(case["steps"]):
+        key = st_["form"]
+        if key not in srcs:
+            sub = dict(case, form=key, container=st_.get("container", "md"))
+            if key != "generated":
+                sub.pop("gen_form", None)
+            d = os.path.join(box.root, "in", f"f{len(srcs)}")
+            os.mkdir(d)
+            form = dict(sub.get("gen_form") if key == "generated" else FIXTURES[key])
+            form.setdefault("args", {})
+            if sub["container"] == "xlsx" or not render.md_ok(form):
+                pth = os.path.join(d, "form.xlsx")
+                open(pth, "wb").write(render.to_xlsx(form))
+            else:
+                pth = os.path.join(d, "form.md")
+                open(pth, "w", encoding="utf-8").write(render.to_md(form))
+            srcs[key] = pth
+        raw, exp_lines, raw_bytes = render_lines(st_["stderr"])
+        o = st_["outcome"]
+        plan.append({"src": srcs[key], "pretty": bool(st_.get("pretty")), "stderr_hex": raw_bytes.hex() if o in ("ok-stderr", "reject") else None,
+                     "exit": st_.get("exit", 1) if o == "reject" else None, "kill": o == "killed"})
+        expect_.append((o, raw, exp_lines))
+        out.label(f"outcome:{o}", f"form:{key}")
+        for ln in st_["stderr"]:
+            out.label(LINE_LABEL[ln[0]])
+    forms_seq = [st_["form"] for st_ in case["steps"]]
+    if len(set(forms_seq)) < len(forms_seq):
+        out.label("seq:same-form-again")
+    if any(a["form"] == b["form"] and (a["outcome"] == "reject") != (b["outcome"] == "reject") for a in case["steps"] for b in case["steps"]):
+        out.label("seq:verdict-flips-on-same-form")
+    plan_path = os.path.join(box.root, "scn", "plan.json")
+    with open(plan_path, "w") as f:
+        json.dump(plan, f)
+    try:
+        p = subprocess.run([PY, "-B", "-c", LIB_SEQ_SNIPPET, plan_path], env=box.env(), cwd=box.root, stdout=subprocess.PIPE, stderr=subprocess.PIPE, timeout=600)
+    except subprocess.TimeoutExpired:
+        out.fail("C18.terminates", "lib-seq", "the calls did not return within 600 s")
+        return
+    js = last_json(p.stdout.decode("utf-8", "replace"))
+    out.checked("C18.lib-outcome")
+    if js is None or len(js.get("results", [])) != len(plan):
+        out.fail("C18.lib-outcome", "no-result|lib-seq", f"exit {p.returncode}: {p.stderr.decode('utf-8', 'replace')[-300:]}")
+        return
+    any_started = False
+    for i, (res, st_, (o, raw, exp_lines)) in enumerate(zip(js["results"], case["steps"], expect_)):
+        ref = reference(plan[i]["src"], plan[i]["pretty"])
+        if ref["status"] == "crash":
+            out.label("reference-crash:" + ref["sig"])
+            continue
+        cell = f"{o}|lib-seq"
+        where = f"step {i + 1}/{len(plan)} ({st_['form']}, {o})"
+        any_started |= bool(res.get("started"))
+        if ref["status"] != "ok":
+            if res["status"] != "pyxform-error":
+                out.fail("C18.lib-outcome", "invalid-form-not-rejected|seq", f"{where}: {str(res)[:300]}")
+            if res.get("started"):
+                out.fail("C18.validator-started", "started|lib-seq|invalid-form", f"{where}: the validator was started although it must not be")
+            continue
+        out.checked("C18.validator-started")
+        if not res.get("started"):
+            out.fail("C18.validator-started", "not-started|lib-seq", f"{where}: validation was requested but the validator was never started")
+        if res["status"] == "crash":
+            out.fail("C18.lib-outcome", f"crash|{o}|seq", f"{where}: {res['message']}")
+        elif o == "reject":
+            out.label("verdict:reject")
+            body_lines = "\n".join(exp_lines).strip().splitlines()
+            exp_msg = "ODK Validate Errors:\n" + "\n".join(body_lines)
+            if res["status"] != "odk-error":
+                out.fail("C18.lib-outcome", "reject-expected|seq", f"{where}: {str(res)[:300]}")
+            else:
+                out.checked("C18.cleaned-message")
+                if res["message"] != exp_msg:
+                    out.fail("C18.cleaned-message", diff_kind(res["message"], exp_msg) + "|seq", f"{where}: got {res['message'][:400]!r} expected {exp_msg[:400]!r}")
+        else:
+            out.label("verdict:accept")
+            vwarn = {"ok-silent": [], "ok-stderr": ["ODK Validate Warnings:\n" + raw], "killed": ["Bad return code from ODK Validate."]}[o]
+            if res["status"] != "ok":
+                out.fail("C18.lib-outcome", f"accept-expected|{o}|seq", f"{where}: {str(res)[:300]}")
+            else:
+                check_accept(out, cell, res["xform"], res["warnings"], res["itemsets"], ref, vwarn)
+        out.checked("C18.no-temp-residue")
+        if res.get("residue"):
+            out.fail("C18.no-temp-residue", f"{o}|lib-seq", f"{where}: temporary files survived: {res['residue'][:5]}")
+    if any_started:
+        out.label("validator-started")
+    out.nontrivial = any_started
+
+
 def reference(path, pretty):
     """what the library says without validation, in this process (the working tree's pyxform)"""
     from pyxform.errors import PyXFormError
@@ -369,9 +547,16 @@ SENTINEL = "SENTINEL: file that existed before the run\n"
 
 def evaluate(case) -> Outcome:
     out = Outcome()
-    outcome, entry = case["outcome"], case["entry"]
+    outcome, entry = case.get("outcome"), case["entry"]
     if outcome == "corrupt-jar" and not REAL_JAVA:
         out.label("no-real-java: corrupt-jar cell skipped")
+        return out
+    if entry == "lib-seq":
+        box = Box({"outcome": "ok-silent", "stderr": [], "locale": None})
+        try:
+            _evaluate_seq(case, box, out)
+        finally:
+            box.close()
         return out
     box = Box(case)
     try:
@@ -388,7 +573,9 @@ def _evaluate(case, box, out):
     if case.get("locale"):
         out.label("locale:" + case["locale"])
     for ln in case["stderr"]:
-        out.label({"l": "line:plain", "p": "line:path", "k": "line:kept-path", "m": "line:kept-path", "x": "line:prefix", "s": "line:stack", "d": "line:dup", "b": "line:non-utf8"}[ln[0]])
+        out.label(LINE_LABEL[ln[0]])
+        if ln[-1] == "rep":
+            out.label("line:non-adjacent-repeat")
     src = write_input(box, case)
     ref = reference(src, pretty if entry != "lib" else pretty)
     if ref["status"] == "crash":
